@@ -1,4 +1,93 @@
+import PgsVerif.Props.C05
 import PgsVerif.Model.Purity
+/-!
+# C06 — read accessors are pure: results independent of call order and repetition
+
+The built AST has exactly two kinds of mutable state that a read accessor touches: the memoised
+message / enum closures (message.go, enum.go — `Caches`, C05) and the per-file dependents cache
+(file.go).  `runHistory` threads both through an arbitrary finite sequence of accessor calls and
+walks; the theorem says that in every state such a history can reach, every call answers what the
+first call on a freshly built AST answers (`freshResult`, the very function the correspondence check
+compares with the real code).
+-/
 namespace Pgs.AST
-theorem placeholder_C06 : True := trivial
+
+/-- every cached answer is the answer a fresh AST gives -/
+def HOK (w : World) (g : Graph) (st : HState) : Prop :=
+  CachesOK (usesList w g) (enumUses w g) st.mc ∧
+  ∀ e ∈ st.fc, e.2 = freshFileDependents w g e.1
+
+theorem HOK_fresh (w : World) (g : Graph) : HOK w g HState.fresh :=
+  ⟨cachesOK_empty _ _, by intro e he; simp [HState.fresh] at he⟩
+
+theorem fileDependents_ok (w : World) (g : Graph) (st : HState) (h : HOK w g st) (fi : Nat) :
+    st.fileDependents w g fi = freshFileDependents w g fi := by
+  unfold HState.fileDependents
+  cases hf : st.fc.find? (·.1 == fi) with
+  | none => rfl
+  | some e =>
+    obtain ⟨k, l⟩ := e
+    have hm := List.mem_of_find?_eq_some hf
+    have hk : k = fi := by have := List.find?_some hf; simpa using this
+    simp only
+    rw [← hk]
+    exact h.2 (k, l) hm
+
+/-- one call in an admissible state: the fresh answer, and the state stays admissible -/
+theorem stepH_spec (w : World) (g : Graph) (st : HState) (h : HOK w g st) (op : Ref × String) :
+    (stepH w g st op).2 = freshResult w g op.1 op.2 ∧ HOK w g (stepH w g st op).1 := by
+  have hq : (fun r k => (query (usesList w g) (enumUses w g) st.mc r k).2) = freshQ w g := by
+    funext r k
+    rw [freshQ, (query_spec _ _ st.mc h.1 r k).1, (query_spec _ _ Caches.empty (cachesOK_empty _ _) r k).1]
+  have hf : st.fileDependents w g = freshFileDependents w g := funext (fileDependents_ok w g st h)
+  constructor
+  · simp only [stepH, hq, hf, freshResult]
+  · constructor
+    · simp only [stepH]
+      cases kindOf op.2 with
+      | none => exact h.1
+      | some k => exact (query_spec _ _ st.mc h.1 op.1 k).2
+    · simp only [stepH]
+      split
+      · intro e he
+        rcases List.mem_cons.mp he with rfl | he
+        · rfl
+        · exact h.2 e he
+      · exact h.2
+
+/-- **C06 (any history)**: in every admissible state, a sequence of accessor calls and walks —
+    any length, any order, any repetition — answers, call by call, what the first call on a
+    freshly built AST of the same request answers. -/
+theorem C06_history (w : World) (g : Graph) (ops : List (Ref × String)) :
+    ∀ st, HOK w g st → runHistory w g st ops = ops.map fun op => freshResult w g op.1 op.2 := by
+  induction ops with
+  | nil => intro st _; rfl
+  | cons op ops ih =>
+    intro st h
+    obtain ⟨h1, h2⟩ := stepH_spec w g st h op
+    simp only [runHistory, List.map_cons]
+    rw [h1, ih _ h2]
+
+/-- from a freshly built AST -/
+theorem C06_from_fresh (w : World) (g : Graph) (ops : List (Ref × String)) :
+    runHistory w g HState.fresh ops = ops.map fun op => freshResult w g op.1 op.2 :=
+  C06_history w g ops _ (HOK_fresh w g)
+
+/-- **C06 (order independence)**: the answer to a call does not depend on what was called before it. -/
+theorem C06_prefix_irrelevant (w : World) (g : Graph) (before : List (Ref × String)) (op : Ref × String) :
+    runHistory w g HState.fresh (before ++ [op]) =
+      runHistory w g HState.fresh before ++ runHistory w g HState.fresh [op] := by
+  rw [C06_from_fresh, C06_from_fresh, C06_from_fresh, List.map_append]
+
+/-- **C06 (repetition)**: repeating a history repeats its answers. -/
+theorem C06_repetition (w : World) (g : Graph) (ops : List (Ref × String)) :
+    runHistory w g HState.fresh (ops ++ ops) = runHistory w g HState.fresh ops ++ runHistory w g HState.fresh ops := by
+  rw [C06_from_fresh, C06_from_fresh, List.map_append]
+
+/-- the compared observation (the stateful model run call by call) is the list of fresh answers -/
+theorem C06_model (w : World) (g : Graph) (hg : hydrate w = .ok g) (ops : List (Ref × String)) :
+    (c06Model w ops).ops.map (·.res) = ops.map fun op => freshResult w g op.1 op.2 := by
+  rw [← C06_from_fresh]
+  simp [c06Model, hg, List.map_map, Function.comp_def]
+
 end Pgs.AST
